@@ -389,6 +389,9 @@ def corner_programs():
         # push_distinct() asks the STACK whether the value is on it: a value popped off may be pushed again; another component's pushes count
         P([('push_distinct("k5", #m)', "(CAct (PushD 5 (NHdr 2)))"), ('gt(#n, 5) -> @p1 = pop("k5")', "(CWhen (BCmp Gt (NHdr 1) (NLit 5)) (Pop 1 5))")], rows=DP),
         P([('push("k6", #m)', "(CAct (PushN 6 (NHdr 2)))"), ('push_distinct("k6", #n)', "(CAct (PushD 6 (NHdr 1)))"), ('gt(#n, 8) -> @p2 = pop("k6")', "(CWhen (BCmp Gt (NHdr 1) (NLit 8)) (Pop 2 6))")], rows=DP),
+        # ... reading the current value creates {key: None} when the variable does not exist yet, whether or not anything is then written
+        P([("@d1.a.notnone = #x", f"(CAgg (AssignQK {Q(notnone=True)} 1 {ulit('a')} (NHdr 5)))")], rows=S),
+        P([("@d2.tot.increase.nocontrib = int(#m)", f"(CAgg (AssignQK {Q(increase=True, nocontrib=True)} 2 {ulit('tot')} (NInt (NHdr 2))))"), ("@d2.b = 1", f"(CAct (Agg (AssignK 2 {ulit('b')} (NLit 1))))")], rows=Z0),
         P([("mod(#n, 2) == 0", "(CMod false 1%nat 2 0)")], rows=M),
         P([("not(above(mod(#n, 2), 0))", "(CMod true 1%nat 2 0)")], rows=M),
         P([("mod(#m, 3) == 1", "(CMod false 2%nat 3 1)"), ("no()", "(CB BNo)")], rows=M, AND=False),
